@@ -97,9 +97,31 @@ def coq_term(case, out):
         prev = [data[c][s] for c in range(m)]
         steps.append("[" + "; ".join(str(b) for b in row) + "]")
     parts.append("multi_p_bits [%s]" % "; ".join(steps))
+    # ChainTracker's mean / variance, bit-exact in Flocq binary32, for short histories whose values are exact in f32
+    for (c, k, bits) in bitexact_columns(case):
+        parts.append("trk32_eval %s" % C.zlist(bits))
     parts += qparts                                     # the exact-arithmetic recurrence the range theorems speak about
     parts.append("multi_p_q [%s]" % "; ".join(steps[:max(1, QN // m)]))
     return " ++ ".join("(%s)" % q for q in parts)
+
+
+BN = 48
+
+
+def bitexact_columns(case):
+    """(chain, parameter, f32 bit patterns of the column) for histories of at most BN updates whose values m * 2^e are exactly
+    representable in binary32 (so that `to_f32` is exact for every element type)"""
+    data, e = case["data"], case["e"]
+    m, n, p = len(data), len(data[0]), len(data[0][0])
+    if n > BN:
+        return []
+    res = []
+    for c in range(min(m, 3)):
+        for k in range(min(p, 2)):
+            col = [data[c][s][k] for s in range(n)]
+            if all(abs(v) < (1 << 24) for v in col) and -100 < e < 100:
+                res.append((c, k, [C.float_to_f32_bits(float(v) * 2.0 ** e) for v in col]))
+    return res
 
 
 def unpack(case, model):
@@ -125,8 +147,12 @@ def unpack(case, model):
         pos += n
     mp = model[pos:pos + n]
     pos += n
+    bx = []
+    for _ in bitexact_columns(case):
+        bx.append(model[pos:pos + 2])
+        pos += 2
     pq = [q() for _ in range(m + 1)]                    # exact EMA: one final value per chain, then the multi-chain one
-    return params, cp, mp, pq
+    return params, cp, mp, pq, bx
 
 
 def close(x, ref, tol_abs):
@@ -141,7 +167,15 @@ def compare(case, out, model):
     return check(case, out, *unpack(case, model))
 
 
-def check(case, out, params, cp, mp, pq):
+def check(case, out, params, cp, mp, pq, bx=()):
+    for (c, k, bits), mb in zip(bitexact_columns(case), bx):
+        gm, gs = out["chains"][c]["mean"][k], out["chains"][c]["sm2"][k]
+        nan = lambda b: (b & 0x7F800000) == 0x7F800000 and (b & 0x7FFFFF) != 0
+        if (gm != mb[0] and not (nan(gm) and nan(mb[0]))) or (gs != mb[1] and not (nan(gs) and nan(mb[1]))):
+            return ("chain %d param %d after %d updates: tracker mean / variance bits (%d, %d) = (%r, %r); the update rule evaluated in "
+                    "IEEE binary32 (Model.Tracker.trk32_step) gives (%d, %d) = (%r, %r)" % (
+                        c, k, len(bits), gm, gs, C.f32_bits_to_float(gm), C.f32_bits_to_float(gs), mb[0], mb[1],
+                        C.f32_bits_to_float(mb[0]), C.f32_bits_to_float(mb[1])))
     data = case["data"]
     m, n, p = len(data), len(data[0]), len(data[0][0])
     growth = Fraction(16 * n) * Fraction(EPS)
@@ -277,4 +311,5 @@ def extra(cases, outs, model):
     for c in cases:
         tys[c["ty"]] = tys.get(c["ty"], 0) + 1
     return {"element_types": tys, "max_history": max(len(c["data"][0]) for c in cases),
-            "multi_param_cases": sum(1 for c in cases if len(c["data"][0][0]) >= 2)}
+            "multi_param_cases": sum(1 for c in cases if len(c["data"][0][0]) >= 2),
+            "bitexact_tracker_columns": sum(len(bitexact_columns(c)) for c in cases)}
